@@ -115,3 +115,7 @@ PROPS = {
         "technique": T_RTL,
     },
 }
+
+from .props2 import PROPS2  # noqa: E402
+
+PROPS.update(PROPS2)
